@@ -16,7 +16,7 @@ NEEDS = {("server", "c04_"): ["c01_"], ("server", "c08_"): ["c01_"], ("server", 
 
 # harnesses that call an unexported function directly live in files with a lettered prefix, which
 # only they get: a signature change stops them alone
-FN_NEEDS = {"VerifC17Edits": ["c17e_"], "VerifC06Edits": ["c06e_"]}
+FN_NEEDS = {"VerifC17Edits": ["c17e_"], "VerifC06Edits": ["c06e_"], "VerifC20Sums": ["c20e_"]}
 
 def files_for(pkg, fn, extra=()):
     m = re.match(r"VerifC(\d\d)", fn)
